@@ -307,7 +307,7 @@ class Model:
         pr = Pred(slots={name: out}, eom={name: ("reopen", ch.end, t2, (amp, det_on, det_off))})
         if correct:
             basis = basis_of(ch.ch_id)
-            b_ti, b_tf = (out[-1].ti, out[-1].tf) if out else (ch.slots[-1].ti, ch.slots[-1].tf)
+            b_ti, b_tf = (out[-1].ti, out[-1].tf) if out else (ch.end, ch.end)  # no buffer: nothing drifts
             drift = old[0] * (b_ti - old[1]) * 1e-3 + (-det_off) * (b_tf - ch.end) * 1e-3
             for q in tg:
                 ph, ts, used = _ref(self.pre, basis, q)
